@@ -81,6 +81,21 @@ def b_int(ip, args, kwargs, node):
     raise Unsupported(f"int() of {v!r}")
 
 
+def b_ceil(ip, args, kwargs, node):
+    v = ip.unopt(args[0])
+    if isinstance(v, VInt) and v.kind == "int":
+        return v
+    r = to_real(v)
+    return VInt(-z3.ToInt(-r))
+
+
+def b_floor(ip, args, kwargs, node):
+    v = ip.unopt(args[0])
+    if isinstance(v, VInt) and v.kind == "int":
+        return v
+    return VInt(z3.ToInt(to_real(v)))
+
+
 def b_float(ip, args, kwargs, node):
     v = ip.unopt(args[0])
     if isinstance(v, VReal):
@@ -598,6 +613,9 @@ def build_lib() -> dict:
     lib["asyncio"].attrs["wait_for"] = VBuiltin("asyncio.wait_for", asyncio_wait_for)
     for n in ("CancelledError", "TimeoutError", "QueueEmpty", "QueueFull"):
         lib["asyncio"].attrs[n] = VClass(n)
+    lib["ceil"] = VBuiltin("math.ceil", b_ceil)
+    lib["floor"] = VBuiltin("math.floor", b_floor)
+    lib["math"] = VModule("math", {"ceil": lib["ceil"], "floor": lib["floor"]})
     lib["object"] = VModule("object", {"__setattr__": VBuiltin("object.__setattr__", b_object_setattr)})
     lib["True"] = VBool(True)
     lib["False"] = VBool(False)
@@ -696,7 +714,14 @@ def s_contains(ip, args, kwargs, node):
     return VBool(_b(ip.contains(args[0], args[1])))
 
 
-SPEC_LIB = {"contains": VBuiltin("contains", s_contains), "nonempty": VBuiltin("nonempty", s_nonempty), "nonempty_map": VBuiltin("nonempty_map", s_nonempty), "without": VBuiltin("without", s_without), "with_": VBuiltin("with_", s_with),
+def s_last_now(ip, args, kwargs, node):
+    """spec: the most recent wall-clock reading made by the function (datetime)"""
+    if not ip.st.clock_terms:
+        return VInt(ip.st.read_clock_us(), "dt")
+    return VInt(ip.st.clock_terms[-1], "dt")
+
+
+SPEC_LIB = {"last_now": VBuiltin("last_now", s_last_now), "contains": VBuiltin("contains", s_contains), "nonempty": VBuiltin("nonempty", s_nonempty), "nonempty_map": VBuiltin("nonempty_map", s_nonempty), "without": VBuiltin("without", s_without), "with_": VBuiltin("with_", s_with),
             "appended": VBuiltin("appended", s_appended),"dt_in_range": VBuiltin("dt_in_range", s_dt_in_range), "td_in_range": VBuiltin("td_in_range", s_td_in_range),
             "us": VBuiltin("us", s_us)}
 _orig_build = build_lib
